@@ -3,6 +3,10 @@ package checks
 import (
 	"context"
 	"fmt"
+	storagev1 "k8s.io/api/storage/v1"
+	metav1 "k8s.io/apimachinery/pkg/apis/meta/v1"
+	"os"
+	"sigs.k8s.io/controller-runtime/pkg/client"
 	"sigs.k8s.io/karpenter/pkg/scheduling"
 	"sort"
 	"strings"
@@ -40,6 +44,20 @@ func c18Worlds() map[string]dWorld {
 			{name: "a", pool: "default", typ: "l", zone: "a", ct: "on-demand", pods: []dPod{{name: "p1", cpu: 2500}}},
 			{name: "b", pool: "default", typ: "m", zone: "a", ct: "on-demand", pods: []dPod{{name: "p2", cpu: 900}}}},
 			pending: []dPod{{name: "q1", cpu: 3000}}},
+		// volumes: node a's pod mounts a claim and can move to node b, which has a CSI attach limit of 2 and already mounts one
+		// claim; node b also runs a pod WITHOUT volumes ("x-...": deleted after the simulations, see the post-mutation check)
+		"pvc-pods-and-volume-limit": {catalog: K1r, pools: []*v1.NodePool{world.NodePool("default")}, nodes: []dNode{
+			{name: "a", pool: "default", typ: "m", zone: "a", ct: "on-demand", pods: []dPod{{name: "pa", cpu: 500, mods: []func(*corev1.Pod){pvcVol("claim-a")}}}},
+			{name: "b", pool: "default", typ: "l", zone: "a", ct: "spot", pods: []dPod{{name: "pb1", cpu: 500, mods: []func(*corev1.Pod){pvcVol("claim-b1")}}, {name: "x-pb2", cpu: 300}}}},
+			extra: func() []client.Object {
+				sc, two := "sc", int32(2)
+				return []client.Object{
+					&storagev1.StorageClass{ObjectMeta: metav1.ObjectMeta{Name: sc}, Provisioner: "csi.x"},
+					&corev1.PersistentVolumeClaim{ObjectMeta: metav1.ObjectMeta{Name: "claim-a", Namespace: "default"}, Spec: corev1.PersistentVolumeClaimSpec{StorageClassName: &sc}},
+					&corev1.PersistentVolumeClaim{ObjectMeta: metav1.ObjectMeta{Name: "claim-b1", Namespace: "default"}, Spec: corev1.PersistentVolumeClaimSpec{StorageClassName: &sc}},
+					&storagev1.CSINode{ObjectMeta: metav1.ObjectMeta{Name: "b"}, Spec: storagev1.CSINodeSpec{Drivers: []storagev1.CSINodeDriver{{Name: "csi.x", NodeID: "b", Allocatable: &storagev1.VolumeNodeResources{Count: &two}}}}},
+				}
+			}()},
 		// inter-pod constraints: topology groups are built from the cluster's pods for every simulation
 		"inter-pod-constraints": {catalog: K1r, pools: []*v1.NodePool{world.NodePool("default")}, nodes: []dNode{
 			{name: "a", pool: "default", typ: "m", zone: "a", ct: "on-demand", pods: []dPod{{name: "p1", cpu: 500, mods: []func(*corev1.Pod){lbl("app", "x"), antiAff(corev1.LabelHostname, "x", false)}}}},
@@ -139,7 +157,7 @@ func init() {
 		ctxModes := []string{"normal", "already-cancelled", "deadline-1ns"}
 		subsets := [][]int{{0}, {1}, {2}, {0, 1}, {0, 2}, {1, 2}, {0, 1, 2}}
 		r.Rule = fmt.Sprintf("%d disruption worlds (mixed nodes with host-port / deletion-cost pods and pending pods; deleting + uninitialized nodes; reserved offerings with the gate on; two pools with PDB / do-not-disrupt pods; pods with required anti-affinity and DoNotSchedule spread; daemon pods, host ports on every node, a drifted and a marked node) x every candidate subset of size <=3 of the candidates returned by the real GetCandidates x k in %v consecutive disruption.SimulateScheduling calls x context {normal, already cancelled, 1ns deadline}; plus one Provisioner.Schedule pass per world. "+
-			"Oracle: digest of all API objects (incl. resourceVersions), of the cluster cache through exported accessors — both the live entries and the copies DeepCopyNodes hands to schedulers — (usage, host-port / volume probes, deletion marks, nominations, consolidation state) and of the provider catalog INCLUDING slice order, availability and reservation counts identical before and after; zero write calls; repeated identical simulations decide the same. For the provisioning pass only nominations and pod bookkeeping may differ. non-trivial = distinct (world, subset, k, context) whose simulation returned placements", len(names), ks)
+			"Oracle: digest of all API objects (incl. resourceVersions), of the cluster cache through exported accessors — both the live entries and the copies DeepCopyNodes hands to schedulers — (usage, host-port / volume probes, deletion marks, nominations, consolidation state) and of the provider catalog INCLUDING slice order, availability and reservation counts identical before and after; zero write calls; repeated identical simulations decide the same; after the simulations an unrelated pod is deleted (one ordinary pod event) and the cache must equal a fresh one built from the API (residue in fields no accessor shows surfaces on the next update). For the provisioning pass only nominations and pod bookkeeping may differ. non-trivial = distinct (world, subset, k, context) whose simulation returned placements", len(names), ks)
 		r.Assumptions = []string{"state is observed through exported accessors only", "real-time timeouts inside the scheduler are not reached"}
 		enum.Run(r, enum.Size(len(names), len(subsets), len(ks), len(ctxModes)), func(idx int64, l *ev.Local) {
 			d := enum.Odo(idx, len(names), len(subsets), len(ks), len(ctxModes))
@@ -188,6 +206,9 @@ func init() {
 						l.Violation("consecutive identical simulations disagree", fmt.Sprintf("simulation #1 decided %q, simulation #%d decided %q  [world=%s candidates=%v]", firstDecision, k+1, dg, names[d[0]], candNames(cands)), map[string]any{"world": names[d[0]]})
 					}
 				}
+				if os.Getenv("C18_DEBUG") != "" && names[d[0]] == "pvc-pods-and-volume-limit" {
+					fmt.Printf("C18DBG cands=%v k=%d ctx=%s => %s\n", candNames(cands), k, ctxModes[d[3]], digestOutcome(schedOutcome{Results: res}))
+				}
 				for _, nc := range res.NewNodeClaims {
 					placements += len(nc.Pods)
 				}
@@ -212,6 +233,34 @@ func init() {
 			}
 			if c := w.DigestCatalog(); c != cat0 {
 				l.Violation("simulation changed the provider's instance types / offerings", firstDiff(cat0, c)+"  ["+desc+"]", map[string]any{"case": desc})
+			}
+			// post-mutation differential: state a simulation left behind in fields no accessor shows may surface only when
+			// the cache is next updated. Delete the pods named x-* (one ordinary pod event each) and compare the cache with a
+			// fresh one built from the API.
+			pods := &corev1.PodList{}
+			_ = w.Raw.List(w.Ctx, pods)
+			mutated := false
+			inf := w.NewInformers(w.Cluster)
+			for i := range pods.Items {
+				if strings.HasPrefix(pods.Items[i].Name, "x-") {
+					w.EnvDelete(&pods.Items[i])
+					// ONLY the pod event is delivered (a Node event would rebuild the entry from scratch and hide residue)
+					_ = inf.Deliver("Pod", pods.Items[i].Namespace, pods.Items[i].Name)
+					mutated = true
+				}
+			}
+			if mutated {
+				have := strings.Join(digestCluster(w, w.Cluster), "\n")
+				old := w.Cluster
+				w.Cluster = state.NewCluster(w.Clock, w.Client, w.CP)
+				w.RebindInformers()
+				w.SyncCluster()
+				want := strings.Join(digestCluster(w, w.Cluster), "\n")
+				w.Cluster = old
+				w.RebindInformers()
+				if have != want {
+					l.Violation("simulation left residue in the cluster state (visible after the next pod event)", firstDiff(want, have)+"  ["+desc+"]", map[string]any{"case": desc})
+				}
 			}
 			if idx%37 == 5 {
 				l.Sample(map[string]any{"case": desc, "placements": placements})
